@@ -570,7 +570,7 @@ func (x *extras) joiners() {
 	}
 	for e := uint32(2); e <= src.epoch(); e++ {
 		want := src.epochBlocks(e)
-		for variant := 0; variant < 2; variant++ {
+		for variant := 0; variant < 3; variant++ {
 			j := cl.newShadow(fmt.Sprintf("joiner(epoch %d, variant %d)", e, variant), newDBs(), true)
 			if variant == 1 {
 				// reset in the middle of some other epoch: first process a part of epoch 1
@@ -590,6 +590,32 @@ func (x *extras) joiners() {
 			c.Count("joiner_resets", 1)
 			if j.inst.store.GetLastDecidedFrame() != 0 || uint32(j.inst.store.GetEpoch()) != e {
 				c.Violation("joiner", "joiner/state", "%s: after Reset epoch=%d decided=%d", j.name, j.inst.store.GetEpoch(), j.inst.store.GetLastDecidedFrame())
+			}
+			if variant == 2 && len(src.order[e]) >= 2 {
+				// reset to the epoch the instance is already in (its epoch database exists under that number and holds
+				// events and decisions): the epoch starts over, empty
+				o := src.order[e]
+				for _, g := range o[:len(o)/2] {
+					if uint32(j.inst.store.GetEpoch()) != e {
+						break
+					}
+					if err := j.process(cl.pool[g]); err != nil {
+						c.Violation("valid-rejected", "valid-rejected/joiner", "%s rejected %s: %v", j.name, cl.descEv(cl.pool[g]), err)
+					}
+				}
+				if uint32(j.inst.store.GetEpoch()) == e {
+					j.blocks = nil
+					j.guard("Reset", func() { err = j.inst.lch.Reset(idx.Epoch(e), cl.epochRef(e).PV) })
+					if err != nil {
+						c.Violation("joiner", "joiner/reset-error", "%s: second Reset returned %v", j.name, err)
+					}
+					c.Probe("reset_to_the_current_epoch")
+					if j.inst.store.GetLastDecidedFrame() != 0 || uint32(j.inst.store.GetEpoch()) != e || len(j.inst.store.GetFrameRoots(1)) != 0 {
+						c.Violation("joiner", "joiner/state", "%s: after Reset to the current epoch: epoch=%d decided=%d roots(1)=%d", j.name, j.inst.store.GetEpoch(), j.inst.store.GetLastDecidedFrame(), len(j.inst.store.GetFrameRoots(1)))
+					}
+				} else {
+					continue // the half already sealed the epoch: nothing to compare in this variant
+				}
 			}
 			for _, g := range src.order[e] {
 				if uint32(j.inst.store.GetEpoch()) != e {
